@@ -299,6 +299,23 @@ def main():
                 orig_fit(self, *a, **k)
                 raise RuntimeError("C19 injected fault at the end of Trainer.fit")
             L.Trainer.fit = fit
+        # ids of the tracking runs this process opens (the final configuration must record the one it used)
+        run_ids = []
+        try:
+            import wandb as _wb
+            _orig_init = _wb.init
+
+            def _init(*a, **k):
+                r = _orig_init(*a, **k)
+                try:
+                    run_ids.append(str(r.id))
+                except Exception:
+                    pass
+                return r
+            _wb.init = _init
+        except Exception as e:      # noqa
+            obs.events.append({"kind": "hook-missing", "what": "wandb.init", "err": str(e)})
+        res["wandb_run_ids"] = run_ids
         obs.event("start")
         phase = "init"
         trainer = None
